@@ -115,7 +115,7 @@ def scripted_records(args):
 def all_status_sequences(maxlen):
     for n in range(0, maxlen + 1):
         for t in itertools.product(VOCAB, repeat=n):
-            for rc in (0, 1, 2):
+            for rc in (0, 1, 2, 255, -15, -9):
                 yield (list(t), rc)
 
 
